@@ -66,6 +66,8 @@ out.append("Produced by fresh sub-agents given only the text of one property and
            "`tools/preserve.py verify` confirmed on scratch copies that the repository's suite stays green and that the agent's differential "
            "demo prints the same digest with and without the change, then ran ALL 20 quick checks with `VERIF_REPO=<patched copy>`; every exit "
            "code must be 0 (a VIOLATION or an INCONCLUSIVE would both count as an alarm).\n")
+out.append("P-* = behaviour-preserving maintenance (round p), Q-* = behaviour-changing in respects the statement leaves open (round q: "
+           "demo prints PROPERTY-OK with and without the change and a different BEHAVIOUR digest).\n")
 out.append("| change | anchored at | lines (+/-) | what it does | checks run | alarms |")
 out.append("|---|---|---|---|---|---|")
 pbase = os.path.join(HERE, "preserving")
@@ -76,8 +78,13 @@ for pid in sorted(os.listdir(pbase)) if os.path.isdir(pbase) else []:
     runs = sum(len(t) for t in m.get("checks", {}).values())
     ptot += 1
     palarm += bool(m.get("alarms"))
-    out.append(f"| {pid} | {m['property']} | {esc(ns).replace('bibtexparser/', '')} | {esc(m['summary'])[:420]} | {runs} | {', '.join(m.get('alarms') or []) or 'none'} |")
-out.append(f"\n{ptot} preserving changes, {palarm} with an alarm.\n")
+    al = ', '.join(m.get('alarms') or []) or 'none'
+    if m.get('alarm_assessment'):
+        al += " - " + "; ".join(f"{k}: {esc(v)}" for k, v in m['alarm_assessment'].items())
+    if m.get('demo_note'):
+        al += " (demo note: " + esc(m['demo_note'])[:300] + ")"
+    out.append(f"| {pid} | {m['property']} | {esc(ns).replace('bibtexparser/', '')} | {esc(m['summary'])[:420]} | {runs} | {al} |")
+out.append(f"\n{ptot} non-breaking changes, {palarm} with an alarm (assessed in the last column).\n")
 
 text = "\n".join(out)
 dp = os.path.join(HERE, "DESIGN.md")
